@@ -30,8 +30,8 @@ CLAIMED = {
             "copies (multiset), stays sorted, net grows by r, over-multiplicity requests are rejected; surfaces in both directions and VOLUMES in all three directions "
             "(insert_u/v/w_preserves_volume_point at given spans, insert_u/v/w_preserves_volume with the linear-search spans for every parameter triple of the domain; the whole homogeneous point is preserved, hence rational shapes; "
             "insertKnotDir_volume ties the object-level model to mapVol with A5.1 on every iso-curve). The model (including the per-direction gather/scatter for surfaces "
-            "and volumes and the partial application when a later direction is rejected) is tied to operations.insert_knot and the insert_knot methods by exact correspondence.",
-            "Surfaces: proved for both directions (insert_u/insert_v_preserves_surface_point: the gather / scatter of iso-curves of the model preserves every surface point). Volumes: proved for all three directions. Object level: one insert_knot call on any subset of the directions of a surface / volume and any sequence of such calls preserve well-formedness, domain and every evaluated point and complete, under DirReqOk per requested direction (insertKnot_preserves_surface/_volume, insert_call_sequence_preserves_*); a rejected later direction leaves the earlier ones applied with the same points (insertKnot_partial_application_*). Not covered: u = U_n, check=False beyond p - s, curve objects at Shape level (curves are proved at helper level); A5.1's in-place loops vs the model's index-by-index form is tied by correspondence."),
+            "and volumes and the partial application when a later direction is rejected) is tied to operations.insert_knot and the insert_knot methods by exact correspondence. The LIST-OF-ROWS branch of helpers.knot_insertion that operations.insert_knot uses for volumes is modelled (knotInsertionRows; gather / scatter volRows, volUnrows, mapVolRows with the code's index expressions; ops rowsins / rowsvol against the real helper called with rows) and PROVED equal to the per-iso-curve model (knotInsertionRows_isocurve without hypothesis, mapVolRows_insert_eq_mapVol, insertKnotVolRows_is_insertKnotDir), so the volume theorems are about what the rows branch computes. insert_sequence_preserves states the final state CurveWF and both domain ends unchanged; insert_net_length: r more points, each of the same dimension.",
+            "Surfaces: proved for both directions (insert_u/insert_v_preserves_surface_point: the gather / scatter of iso-curves of the model preserves every surface point). Volumes: proved for all three directions. Object level: one insert_knot call on any subset of the directions of a surface / volume and any sequence of such calls preserve well-formedness, domain and every evaluated point and complete, under DirReqOk per requested direction (insertKnot_preserves_surface/_volume, insert_call_sequence_preserves_*); a rejected later direction leaves the earlier ones applied with the same points (insertKnot_partial_application_*). Not covered: u = U_n, check=False beyond p - s, curve objects at Shape level (curves are proved at helper level); A5.1's in-place loops (point and rows branch) vs the index-by-index form are tied by correspondence."),
     'C05': ("7/C05",
             "Lean theorems over the executable model, for any degree, dimension, density and ordered field: the admissibility predicate RefineOk is DISCHARGED for the knot list X the library generates (counting argument under tolerance separation, any order); "
             "knotRefinement and knotRefinementOf (explicit knot_list / add_knot_list) preserve every curve point on the whole domain (hypotheses: well-formed curve, clamped end, 0 <= tol, knots pairwise equal or more than tol apart); the refined knot vector is sorted and "
@@ -41,16 +41,16 @@ CLAIMED = {
             "The A5.4 LOOPS of helpers.knot_refinement are additionally TRANSCRIBED LITERALLY (refineA54 / knotRefinementA54, driver ops refa54 / refa54h, compared with the real helper in exact arithmetic) and PROVED equal to the specification-level model - "
             "knot vector (any sorted X in the domain) and control points (every outer pass is one A5.1 insertion; insertion order is irrelevant because each new control point is the original polar value at consecutive new knots) - for curve-level calls, "
             "knot vector clamped at the start, no value more than p+1 times; the literal model itself is proved shape preserving. Both models are tied to the code by exact correspondence through operations.refine_knotvector on curves, surfaces and volumes "
-            "(all direction subsets, densities 1..3) and at helper level with explicit knot lists.",
-            "Volumes: refineDir in every direction and refine_knotvector on any subset of the three directions preserve every volume point and the domain (refineDir_preserves_volume, refineKnotvector_preserves_volume; clamped end + tolerance separation per refined direction). Not proved: the list-of-points branch of the helper (surface / volume rows: same arithmetic on rows) is tied by correspondence only; for knot lists X that would raise a knot above multiplicity p only the knot-vector theorem holds (guard on X). F-05a / F-05b (helper-level refinement with explicit knot lists) were reported with replays and fixed."),
+            "(all direction subsets, densities 1..3) and at helper level with explicit knot lists. The list-of-rows branch of A5.4 (volumes) is transcribed literally as well (refineA54Rows / knotRefinementRows / refineVolRows, ops rowsref / rowsrefh / rowsvol) and proved: every iso-curve of A5.4 on rows is A5.4 of that iso-curve with the same knot vector, and one direction of refine_knotvector on a volume computed through the rows IS refineDir (refineVolRows_is_refineDir, refineVolRows_preserves_volume).",
+            "Volumes: refineDir in every direction and refine_knotvector on any subset of the three directions preserve every volume point and the domain (refineDir_preserves_volume, refineKnotvector_preserves_volume; clamped end + tolerance separation per refined direction). Rows branch proved per iso-curve (the object-level equality needs the start-clamped, multiplicity <= p+1 knot vector of the A5.4 theorem); for knot lists X that would raise a knot above multiplicity p only the knot-vector theorem holds (guard on X). F-05a / F-05b (helper-level refinement with explicit knot lists) were reported with replays and fixed."),
     'C06': ("7/C06",
             "Lean theorems (all degrees, positions, prior multiplicities, counts, tolerances >= 0): knot removal A5.8 as coded INVERTS knot insertion A5.1 - r insertions then t <= r removals (called with the span k+r and multiplicity s+r that find_span_linear / "
             "find_multiplicity are proved to return on the refined knot vector) yield exactly the control net of r-t insertions, t = r the original net, for curves, both surface directions and all three volume directions; knot vector and net sizes drop by exactly "
             "the count (net length unconditionally); evaluated curve points are unchanged for every parameter (via C04); operations.insert_knot followed by operations.remove_knot returns the original curve object (Shape-level round trip). "
             "The model knotRemoval mirrors the repaired code (F-06; the check reported the violation with a replay on the pinned tree first) and is tied to operations.remove_knot / remove_knot methods by exact correspondence, including the removal of knots that are not "
-            "removable and removals in several directions in one call. The exact oracle additionally checks removal after refinement, insert r / remove t <= r in every direction of curves, surfaces, volumes: knot vector, sizes, evaluated points, control points.",
+            "removable and removals in several directions in one call. The exact oracle additionally checks removal after refinement, insert r / remove t <= r in every direction of curves, surfaces, volumes: knot vector, sizes, evaluated points, control points. The list-of-rows branch of A5.8 used for volumes is transcribed as coded (knotRemovalRows: one removability flag per step from the first point of the rows, object sharing between temp and ctrlpts_new; ops rowsrem / rowsvol against the real helper called with rows, removable or not) and PROVED equal to the per-iso-curve model whenever every iso-curve passes the removability test at every step - which inserted knots always do (inserted_knots_all_removable) - hence r insertions then t <= r removals, both through the rows branches, give the net of r-t insertions in all three directions (volume_u/v/w_rows_insert_r_remove_t, removeKnotVolRows_is_removeKnotDir); where the branches differ (only the first iso-curve removable; the first one not removable; 2+ removals of an unremovable knot writing through a row shared between temp and ctrlpts_new) is REFUTED on kernel-decided witnesses replayed on the implementation.",
             "Not proved in Lean: removability of knots not inserted immediately before the removal (refinement; inserted knots after which other knots were inserted; 'whenever removable at all' needs uniqueness of B-spline coefficients) - oracle + correspondence; "
-            "the Shape-level round trip, partial removal (t <= r) and the evaluated-point corollary are proved for curves, either direction of a surface and any direction of a volume with one requested direction per call; several directions in / several out in one call is not proved (oracle + correspondence). Volumes: only removable knots generated (the code derives one removability flag from the first iso-curve)."),
+            "the Shape-level round trip, partial removal (t <= r) and the evaluated-point corollary are proved for curves, either direction of a surface and any direction of a volume with one requested direction per call; several directions in / several out in one call is not proved (oracle + correspondence). Volumes: the object-level model decides per iso-curve; the rows-level model follows the code (first iso-curve) and is compared on unremovable knots too; no agreement theorem for 2+ removals with a failed step (the two branches of the code genuinely differ there)."),
     'C07': ("7/C07",
             "Lean theorems, END TO END through the model functions the correspondence runs (splitDir, decomposeDir, decomposeUV), spans found by find_span_linear, closed end parameters included: split_curve_pieces_coincide (both pieces = original under the affine maps "
             "of their domains, pieces clamped 0^{p+1}..1^{p+1}, sizes |P|+r+1), split_surface_u/v_pieces_coincide, decompose_curve_pieces / decompose_curve_count (exactly one Bezier piece per non-empty knot interval, in order, each coinciding with the original on its "
@@ -65,9 +65,9 @@ CLAIMED = {
             "(pderivU^[k] pderivV^[l]) of the bivariate span polynomial in F[X][Y] at (u,v) (A3.6: all k, l <= order; A3.8: k + l <= order, the rest zero; every PKL entry A3.8 reads is assigned by A3.7); A2.3 = table of true derivatives of the basis polynomials, all divisors positive; "
             "the A4.2 and A4.4 list models solve the univariate / bivariate Leibniz systems of every order, whose solution is unique when the weight function does not vanish (= derivatives of the quotient A/w), also applied to the tables as coded; "
             "hodograph constructors: derivative_curve evaluated through the span search on U[1:-1] = first derivative of the original curve (span shifts by one), the three surfaces of derivative_surface evaluate to S_u, S_v, S_uv; operations.tangent = (point, first derivative(s)); "
-            "operations.normal = cross product of the true partials, orthogonal to both; exact unit length of v/mag. Anchored-line coverage of C02: 302/302.",
+            "operations.normal = cross product of the true partials, orthogonal to both; exact unit length of v/mag. Anchored-line coverage of C02: 302/302. Rational shapes END TO END: for NURBS curves and surfaces with positive weights, through the span search on the closed domain, the evaluated weight is positive and A4.2 / A4.4 applied to the derivative tables solve the Leibniz system of the TRUE derivatives (no hypothesis on the tables left).",
             "Outside the theorems: the setter re-normalisation of hodograph knot vectors that do not span [0,1] (driver applies knotNormalize where the code does; oracle maps the parameter affinely), the ZeroDivisionError guards of the constructors (F-02b, open), "
-            "float sqrt and 18-decimal rounding of vector_normalize (oracle, 1e-12). The quotient view of rational derivatives goes through the Leibniz system and its uniqueness; no end-to-end rational theorem through the span search for curves yet (row lengths of curveDersAt not discharged). "
+            "float sqrt and 18-decimal rounding of vector_normalize (oracle, 1e-12). The quotient view of rational derivatives goes through the Leibniz system and its uniqueness; "
             "F-02 (alternative surface evaluator, order > degree_u) was reported with a replay and fixed; F-02b (derivative_surface on C0 knots) is a recorded finding."),
     'C08': ("7/C08",
             "Lean theorems over the executable model, for every degree, elevation count, dimension, parameter and field of characteristic 0: binomial_coefficient = Nat.choose; "
@@ -83,7 +83,7 @@ CLAIMED = {
             "A*x = b, also as a Mathlib Matrix statement), lu_factor (P*b), matrix_inverse (two-sided), matrix_pivot (one permutation sigma of the rows of A and of the identity; P*A; sign), "
             "history independence with the memoised identity as explicit cache state (every call in every history returns the pure answer), strictly diagonally dominant => lu_solve returns and solves, "
             "helpers (dot, cross incl. orthogonality, transpose involution, product = Matrix product, identity, binomial = Nat.choose, linspace); determinant = Matrix.det under 'no zero pivot after pivoting'. "
-            "Refutations by decide +kernel of the pinned behaviours F-16a / F-16c (repaired by fix: commits after the check reported them with replays) and of F-16b (recorded finding). Model tied to linalg.* by exact correspondence incl. call histories.",
+            "Refutations by decide +kernel of the pinned behaviours F-16a / F-16c (repaired by fix: commits after the check reported them with replays) and of F-16b (recorded finding). Model tied to linalg.* by exact correspondence incl. call histories. Every list-level theorem carries the decidable shape guard under which the code does not reject the input (isSquare, luSolveOk, luFactorOk, matrixInverseOk, matrixMultiplyOk, admissible); driver_guard: these are exactly the driver's ERR tests.",
             "Model mirrors the repaired code for F-16a/F-16c and the pinned code for F-16b (open finding; matrixDeterminant_eq_det_partial excludes exactly that region). Collocation matrices => non-zero pivots, "
             "the max-pivot property and the square-root helpers are oracle-only; frange, angle and triangle helpers are not covered."),
     'C10': ("7/C10",
@@ -105,7 +105,7 @@ CLAIMED = {
             "LENGTH: for every seminorm N (Euclidean over R is an instance; l1 proved an instance over every ordered field) and the model polylineLength / curveLength of operations.length_curve (tied by the exact 'lensum' correspondence): length >= chord (any point list; "
             "clamped curves: end-to-end chord, >= 2 samples); knot insertion never lengthens the control polygon (r copies, sequences); the polyline through curve points at any increasing parameters, in particular the linspace samples for every sample size, is <= the control polygon "
             "(degree >= 1, non-rational, end-clamped). "
-            "Model function boundingBox tied to the bbox property by exact correspondence; the exact oracle checks hull (axes + random directions), bbox, clamped ends on curves, surfaces, volumes, rational or not.",
+            "Model function boundingBox tied to the bbox property by exact correspondence; the exact oracle checks hull (axes + random directions), bbox, clamped ends on curves, surfaces, volumes, rational or not. The Euclidean norm over R is PROVED an instance (euclid_is_seminorm: its distance is point_distance, radicand = normSq) with the real-number corollaries of both length bounds (length_curve_ge_chord_euclid, length_curve_le_control_polygon_euclid).",
             "Not a Lean theorem: that find_ctrlpts returns exactly the active control points (C20 has the index statement), the object layer's dispatch; the clamped start needs a non-empty first span. Not a theorem: float sqrt / summation respecting the length bounds (oracle, 1e-12 slack); rational curves in the length bounds."),
     'C09': ("7/C09",
             "Lean theorems (23, all discharged): the list helpers combine / separate / generate_* are mutually inverse; for EVERY history of the three setters, the three reads and reverse the views "
@@ -138,9 +138,9 @@ CLAIMED = {
             "Model = repaired __eq__ (F-19 fixed by a fix: commit after the check reported it with a replay); tolerance = value of 10 ** (-precision) passed to the model by the harness; mixed-precision pairs (asymmetric ==) are compared "
             "with the model but not judged; copy.deepcopy itself is checked by the oracle only."),
     'C15': ("7/C15",
-            "Lean theorems (29) over the repaired model, for all grid sizes >= 2 and any spacing: vertex ids 0..V-1, every face index < V, faces exactly the two triangles of every cell, F = 2(nu-1)(nv-1), uniform positive "
+            "Lean theorems (31) over the repaired model, for all grid sizes >= 2 and any spacing: vertex ids 0..V-1, every face index < V, faces exactly the two triangles of every cell, F = 2(nu-1)(nv-1), uniform positive "
             "orientation, area sum = the rectangle's, cell partition, duplicate-free edge list with explicit E, edge incidences (boundary 1, interior 2 in opposite directions), V - E + F = 1, quad mesh, export offsets and blocks, "
-            "STL normal = cross product orthogonal to the edges, stored uv = the sampling parameter; refutation of the pinned size expression for every dividing spacing >= 3. Exact correspondence with TriangularTessellate, "
+            "STL normal = cross product orthogonal to the edges, each vertex's copied evaluated point IS the surface point at its stored uv (vertex_is_surface_point, domain [0,1]^2); refutation of the pinned size expression for every dividing spacing >= 3. Exact correspondence with TriangularTessellate, "
             "QuadTessellate, Surface.tessellate, SurfaceContainer, export_obj/off/stl, triangle_normal; plus the whole-rectangle POINT-SET TILING (the closed triangles cover the rectangle spanned by the grid lines, nothing sticks out, "
             "a point interior to a face lies in no other face; [0,1]^2 when the spacing divides size-1) and the quad mesh vertex parameters (= grid sample parameters = the triangle mesher's for spacing 1; own driver op and exact correspondence with QuadTessellate .uv, after the repair F-15c).",
             "Trimmed tessellation is not modelled (exact oracle test on rectangular polygonal trims only; spline trims untested); when the spacing does not divide size-1 the grid ends before parameter 1 (code behaviour; the tiling theorems speak about the rectangle the grid spans); file syntax and binary STL packing are oracle-only. "
